@@ -241,6 +241,13 @@ static carquet_status_t open_row_group_readers(
     return CARQUET_OK;
 }
 
+/* Store to the failure flag shared by the column workers of one batch */
+#ifdef _OPENMP
+#define CARQUET_BATCH_SET_FAILED(flag) do { _Pragma("omp atomic write") (flag) = 1; } while (0)
+#else
+#define CARQUET_BATCH_SET_FAILED(flag) do { (flag) = 1; } while (0)
+#endif
+
 carquet_status_t carquet_batch_reader_next(
     carquet_batch_reader_t* batch_reader,
     carquet_row_batch_t** batch) {
@@ -304,8 +311,10 @@ carquet_status_t carquet_batch_reader_next(
         return CARQUET_OK;
     }
 
-    /* Read each column - potentially in parallel */
-    bool read_error = false;
+    /* Read each column - potentially in parallel. The failure flag is shared by
+     * the workers: every access inside the loop is atomic (a plain store next
+     * to another worker's load or store is a data race). */
+    int read_error = 0;
 
 #ifdef _OPENMP
     int num_threads = batch_reader->config.num_threads;
@@ -362,7 +371,12 @@ carquet_status_t carquet_batch_reader_next(
     #pragma omp parallel for num_threads(num_threads) schedule(dynamic)
 #endif
     for (col_i = 0; col_i < batch_reader->num_projected; col_i++) {
-        if (read_error) continue;
+        int failed_already;
+#ifdef _OPENMP
+        #pragma omp atomic read
+#endif
+        failed_already = read_error;
+        if (failed_already) continue;
 
         carquet_column_reader_t* col_reader = batch_reader->col_readers[col_i];
         carquet_column_data_t* col_data = &new_batch->columns[col_i];
@@ -418,7 +432,7 @@ carquet_status_t carquet_batch_reader_next(
             size_t bitmap_size = ((size_t)col_data->num_values + 7) / 8;
             col_data->null_bitmap = calloc(1, bitmap_size);  /* All zeros = no nulls */
             if (!col_data->null_bitmap) {
-                read_error = true;
+                CARQUET_BATCH_SET_FAILED(read_error);
                 continue;
             }
 
@@ -431,14 +445,14 @@ carquet_status_t carquet_batch_reader_next(
 
             /* Validate value_size and check for overflow */
             if (value_size == 0 || rows_to_read <= 0) {
-                read_error = true;
+                CARQUET_BATCH_SET_FAILED(read_error);
                 continue;
             }
 
             /* Check for multiplication overflow (max 1GB allocation) */
             #define CARQUET_MAX_BATCH_ALLOC (1024ULL * 1024 * 1024)
             if (value_size > CARQUET_MAX_BATCH_ALLOC / (size_t)rows_to_read) {
-                read_error = true;
+                CARQUET_BATCH_SET_FAILED(read_error);
                 continue;
             }
 
@@ -447,7 +461,7 @@ carquet_status_t carquet_batch_reader_next(
             /* Allocate column data buffer */
             col_data->data = malloc(data_size);
             if (!col_data->data) {
-                read_error = true;
+                CARQUET_BATCH_SET_FAILED(read_error);
                 continue;
             }
             col_data->data_capacity = data_size;
@@ -457,7 +471,7 @@ carquet_status_t carquet_batch_reader_next(
             size_t bitmap_size = ((size_t)rows_to_read + 7) / 8;
             col_data->null_bitmap = calloc(1, bitmap_size);
             if (!col_data->null_bitmap) {
-                read_error = true;
+                CARQUET_BATCH_SET_FAILED(read_error);
                 continue;
             }
 
@@ -466,7 +480,7 @@ carquet_status_t carquet_batch_reader_next(
             if (max_def > 0) {
                 def_levels = malloc(sizeof(int16_t) * (size_t)rows_to_read);
                 if (!def_levels) {
-                    read_error = true;
+                    CARQUET_BATCH_SET_FAILED(read_error);
                     continue;
                 }
             }
@@ -477,7 +491,7 @@ carquet_status_t carquet_batch_reader_next(
             /* A short read means a page load failed after partial progress (or the
              * column holds fewer values than column 0): the batch would be ragged */
             if (values_read < rows_to_read) {
-                read_error = true;
+                CARQUET_BATCH_SET_FAILED(read_error);
                 free(def_levels);
                 continue;
             }
@@ -502,7 +516,7 @@ carquet_status_t carquet_batch_reader_next(
                 }
                 col_data->byte_array_storage = malloc(total_bytes ? total_bytes : 1);
                 if (!col_data->byte_array_storage) {
-                    read_error = true;
+                    CARQUET_BATCH_SET_FAILED(read_error);
                     free(def_levels);
                     continue;
                 }
